@@ -758,7 +758,9 @@ async fn c13_poll<TC: Configuration>(cx: &mut Cx) {
 /// flushed the cache must not leave the instance answering (new epoch, old root).  The reader's request is
 /// parked after k storage operations (before or after the operation itself), the writer publishes, the
 /// poller gets its chance, then the reader continues.
-async fn c13_poll_race<TC: Configuration>(cx: &mut Cx, k: usize, epoch_hash_request: bool) {
+/// kind: 0 lookup on a warm instance; 1 get_epoch_hash, 2 lookup, 3 key_history, 4 audit on an instance that holds only the
+/// epoch record (the state right after a flush)
+async fn c13_poll_race<TC: Configuration>(cx: &mut Cx, k: usize, kind: u8) {
     let cfg = cfg_name::<TC>();
     let (base, labels) = base_history();
     let ctl = Ctl::new(1);
@@ -769,7 +771,7 @@ async fn c13_poll_race<TC: Configuration>(cx: &mut Cx, k: usize, epoch_hash_requ
         hashes.push(writer.publish(upd(b)).await.unwrap().1);
     }
     let reader = gdir::<TC>(&db, true).await;
-    if !epoch_hash_request {
+    if kind == 0 {
         let _ = reader.get_epoch_hash().await;
     }
     // (for the epoch-hash request the instance holds nothing but the epoch record - the state right after a flush)
@@ -784,10 +786,17 @@ async fn c13_poll_race<TC: Configuration>(cx: &mut Cx, k: usize, epoch_hash_requ
     let rd = reader.clone();
     let l0 = labels[0].clone();
     let h = tokio::spawn(TASK.scope(0, async move {
-        if epoch_hash_request {
-            rd.get_epoch_hash().await.map(|e| (e.0, e.1)).map_err(|e| format!("{:?}", e))
-        } else {
-            rd.lookup(AkdLabel(l0)).await.map(|(_, e)| (e.0, e.1)).map_err(|e| format!("{:?}", e))
+        match kind {
+            1 => rd.get_epoch_hash().await.map(|e| (e.0, e.1)).map_err(|e| format!("{:?}", e)),
+            3 => rd.key_history(&AkdLabel(l0), HistoryParams::Complete).await.map(|(_, e)| (e.0, e.1)).map_err(|e| format!("{:?}", e)),
+            4 => {
+                // an audit names no epoch hash of its own: report the current one afterwards
+                match rd.audit(1, 2).await {
+                    Ok(_) => rd.get_epoch_hash().await.map(|e| (e.0, e.1)).map_err(|e| format!("{:?}", e)),
+                    Err(e) => Err(format!("{:?}", e)),
+                }
+            }
+            _ => rd.lookup(AkdLabel(l0)).await.map(|(_, e)| (e.0, e.1)).map_err(|e| format!("{:?}", e)),
         }
     }));
     // let the request perform k gate passages, then leave it parked
@@ -820,7 +829,7 @@ async fn c13_poll_race<TC: Configuration>(cx: &mut Cx, k: usize, epoch_hash_requ
     }
     cx.stat("c13_poll_race");
     cx.note(format!("C13 poll race cfg {} parked after {} gate passages", cfg, k));
-    let what = format!("[cfg {} change poller racing {} parked after {} storage gate passages]", cfg, if epoch_hash_request { "a get_epoch_hash request" } else { "a lookup" }, k);
+    let what = format!("[cfg {} change poller racing {} parked after {} storage gate passages]", cfg, ["a lookup (warm instance)", "a get_epoch_hash request", "a lookup", "a key_history request", "an audit request"][kind as usize], k);
     if !signalled {
         cx.fail(format!("C13 {}: the poller never signalled epoch {}", what, eh.0));
     }
@@ -945,10 +954,12 @@ pub fn run(seed: u64, tier: u32, which: &str) -> Cx {
             c13_poll::<W>(&mut cx).await;
             c13_poll::<E>(&mut cx).await;
             for k in 1..(if tier == 0 { 14 } else { 30 }) {
-                if k % 2 == 0 { c13_poll_race::<W>(&mut cx, k, false).await } else { c13_poll_race::<E>(&mut cx, k, false).await }
+                if k % 2 == 0 { c13_poll_race::<W>(&mut cx, k, 0).await } else { c13_poll_race::<E>(&mut cx, k, 0).await }
                 if k <= 4 {
-                    c13_poll_race::<W>(&mut cx, k, true).await;
+                    c13_poll_race::<W>(&mut cx, k, 1).await;
                 }
+                // every other request kind on an instance that has just been flushed
+                c13_poll_race::<W>(&mut cx, k, 2 + (k % 3) as u8).await;
             }
         }
     });
